@@ -162,8 +162,11 @@ pub fn round_up_to_chunks_groups(ranges: ChunkRanges, chunk_size: BlockSize) -> 
             }
             RangeSetRange::Range(range) => {
                 let start = ChunkNum::chunk_group_start(*range.start, chunk_size);
-                let end = ChunkNum::chunk_group_end(*range.end, chunk_size);
-                ChunkRanges::from(start..end)
+                match ceil(range.end.0, chunk_size.0) {
+                    Some(end) => ChunkRanges::from(start..ChunkNum(end)),
+                    // the end of the last chunk group does not fit into an u64
+                    None => ChunkRanges::from(start..),
+                }
             }
         }
     }
@@ -179,26 +182,33 @@ pub fn full_chunk_groups(ranges: &ChunkRanges, block_size: BlockSize) -> ChunkRa
         value >> shift << shift
     }
 
-    fn ceil(value: u64, shift: u8) -> u64 {
-        (value + (1 << shift) - 1) >> shift << shift
-    }
     let mut res = ChunkRanges::empty();
     for item in ranges.iter() {
         match item {
             RangeSetRange::RangeFrom(range) => {
-                let start = ceil(range.start.0, block_size.0);
-                res |= ChunkRanges::from(ChunkNum(start)..)
+                // if the start of the next chunk group does not fit into an u64,
+                // there is no full chunk group at or after start
+                if let Some(start) = ceil(range.start.0, block_size.0) {
+                    res |= ChunkRanges::from(ChunkNum(start)..)
+                }
             }
             RangeSetRange::Range(range) => {
-                let start = ceil(range.start.0, block_size.0);
-                let end = floor(range.end.0, block_size.0);
-                if start < end {
-                    res |= ChunkRanges::from(ChunkNum(start)..ChunkNum(end))
+                if let Some(start) = ceil(range.start.0, block_size.0) {
+                    let end = floor(range.end.0, block_size.0);
+                    if start < end {
+                        res |= ChunkRanges::from(ChunkNum(start)..ChunkNum(end))
+                    }
                 }
             }
         }
     }
     res
+}
+
+/// Round up to a multiple of `1 << shift`, or None if the result does not fit into an u64
+fn ceil(value: u64, shift: u8) -> Option<u64> {
+    let mask = (1u64 << shift) - 1;
+    Some(value.checked_add(mask)? >> shift << shift)
 }
 
 pub(crate) fn combine_hash_pair(l: &blake3::Hash, r: &blake3::Hash) -> [u8; 64] {
